@@ -206,7 +206,7 @@ TEXT = {
                       "and is an observed (K+1)-mer; C03_observed_adjacency_recorded - conversely every observed (K+1)-mer at a node end whose "
                       "target was retained is recorded (terminal k-mers that are their own reverse complement excluded). max_path_beam is not modelled.",
         "design_ref": "DESIGN.md section 6, C03",
-        "level_note": COMMON_NOTE + "Partial: GInv / edge completeness after re-compression (compress_graph, censoring) by execution; max_path_beam not modelled.",
+        "level_note": COMMON_NOTE + "Partial: GInv / edge completeness after re-compression WITH censoring by execution (without censoring: C09_result_wellformed); max_path_beam not modelled.",
         "technique": "Lean 4 proof (case analysis of link resolution, bit-level exactness of pruning, overlap algebra of walks, invariant of the greedy best-path loop) + differential correspondence with executable predicates",
     },
     "C18": {
@@ -282,10 +282,14 @@ TEXT = {
                       "C09_recompress_eq_direct: building the graph from a k-mer table with ANY symmetric join predicate that joins less - in "
                       "particular never: the one-k-mer-per-node graph - and re-compressing it (no censoring) never panics and gives exactly the "
                       "partition of compressing the pruned table directly, in any hash order (node-level good links = k-mer-level good links "
-                      "between the end ports of the nodes, pgraph_recompress). Idempotence on an already re-compressed graph and the censored "
-                      "variants are executable predicates on the crate's result.",
+                      "between the end ports of the nodes, pgraph_recompress). pgraph_compressGraph: the result of compress_graph on a ported graph "
+                      "is again ported (each new node is a chain of old nodes whose two end ports are the k-mer ports of the old nodes at its "
+                      "ends; terminal k-mers and extension bytes from build_node's assembly, complemented when an old node lies reverse-"
+                      "complemented), hence C09_result_wellformed (the result satisfies GInv, find_link is complete on it) and C09_idempotent: "
+                      "re-compressing the result returns, every path of the second call is exactly one node of the first result, node counts and "
+                      "partitions agree. With a non-empty censor set the comparison with the k-mer table is an executable predicate.",
         "design_ref": "DESIGN.md section 6, C09",
-        "level_note": COMMON_NOTE + "Partial: idempotence (GInv of compress_graph's own result) and censored re-compression vs. the table by execution.",
+        "level_note": COMMON_NOTE + "Partial: censored re-compression against the k-mer table by execution.",
         "technique": "Lean 4 proof (invariants of the well-founded walk and of the in-place fix_exts fold, overlap algebra of merged sequences) + differential correspondence with executable predicates",
     },
     "C19": {
